@@ -14,7 +14,9 @@
 (***************************************************************************)
 EXTENDS Integers, Sequences, FiniteSets, SequencesExt, TLC, Json
 
-CONSTANTS MaxN,     \* sizes 0..MaxN
+CONSTANTS BigN,     \* sizes mode: the walk continues up to BigN (0: stop at MaxN); beyond MaxN only sizes next to a power of
+                    \* two (where the append path collapses) and a sparse sample are printed for the replay
+          MaxN,     \* sizes 0..MaxN
           MaxSub,   \* subsets mode: list lengths 1..MaxSub
           Mode      \* "sizes" | "subsets"
 
@@ -57,7 +59,11 @@ Init == /\ n = 0 /\ path = <<>> /\ root = E
         /\ sub \in (IF Mode = "subsets" THEN {<<m, S>> : m \in 1..MaxSub, S \in SUBSET (1..MaxSub)} ELSE {<<0, {}>>})
         /\ (Mode = "subsets" => (sub[2] # {} /\ sub[2] \subseteq 1..sub[1]))
 
-AppendLeaf == /\ Mode = "sizes" /\ n < MaxN
+Top == IF BigN > MaxN THEN BigN ELSE MaxN
+RECURSIVE NearP2(_, _)
+NearP2(m, k) == IF k > 2 * m + 8 THEN FALSE ELSE (m >= k - 3 /\ m <= k + 2) \/ NearP2(m, 2 * k)
+Printed(m) == m <= MaxN \/ NearP2(m, 64) \/ m % 97 \in {0, 1}
+AppendLeaf == /\ Mode = "sizes" /\ n < Top
           /\ n' = n + 1 /\ root' = AppendRoot(path, n) /\ path' = AppendPathInc(path, n) /\ UNCHANGED sub
 Next == AppendLeaf
 Spec == Init /\ [][Next]_vars
@@ -65,9 +71,9 @@ Spec == Init /\ [][Next]_vars
 IncrementalIsBatch == root = RootOf(1, n)
 PathIsDecl == path = PathDecl(n)
 PathReconstructsRoot == FoldPath(path) = root
-PathLength == Len(path) = Cardinality({b \in 0..8 : (n \div (2 ^ b)) % 2 = 1})
+PathLength == Len(path) = Cardinality({b \in 0..14 : (n \div (2 ^ b)) % 2 = 1})
 
 Row == IF Mode = "sizes"
-       THEN PrintT(<<"DUMP", ToJson([n |-> n, root |-> root, path |-> path])>>)
+       THEN ~Printed(n) \/ PrintT(<<"DUMP", ToJson([n |-> n, root |-> root, path |-> path])>>)
        ELSE PrintT(<<"DUMP", ToJson([n |-> sub[1], s |-> SetToSortSeq(sub[2], <), root |-> RootOf(1, sub[1])])>>)
 =============================================================================
